@@ -140,8 +140,7 @@ impl<F: Float + SampleUniform + std::fmt::Debug, D: Hash + Copy, H: Hasher + Def
         //
         if self.nb_empty > 0 {
             // now we run densification if necessary
-            let res = self.densify();
-            assert!(res.is_ok());
+            self.densify()?;
         }
         //
         Ok(())
@@ -187,6 +186,9 @@ impl<F: Float + SampleUniform + std::fmt::Debug, D: Hash + Copy, H: Hasher + Def
     fn densify(&mut self) -> anyhow::Result<()> {
         // now we run densification
         let m: usize = self.hsketch.len();
+        if self.nb_empty == m as i64 {
+            return Err(anyhow::anyhow!("densification impossible : nothing was sketched"));
+        }
         let mut nbpass = 1u64;
         let inrange = Uniform::<usize>::new(0, m).unwrap();
         for k in 0..m {
@@ -343,8 +345,7 @@ impl<F: Float + SampleUniform + std::fmt::Debug, D: Hash + Copy, H: Hasher + Def
         //
         if self.nb_empty > 0 {
             // now we run densification if necessary
-            let res = self.densify();
-            assert!(res.is_ok());
+            self.densify()?;
         }
         log::debug!(
             "fastdensminhash::sketch_slice sketch size : {:?},  nb empy slots : {:?}",
@@ -362,6 +363,9 @@ impl<F: Float + SampleUniform + std::fmt::Debug, D: Hash + Copy, H: Hasher + Def
         // now we run densification
         let m: usize = self.hsketch.len();
         let unif_m = Uniform::<usize>::new(0, m).unwrap();
+        if self.nb_empty == m as i64 {
+            return Err(anyhow::anyhow!("densification impossible : nothing was sketched"));
+        }
         let mut pass: u64 = 1;
         while self.nb_empty > 0 {
             for k in 0..m {
